@@ -514,13 +514,13 @@ pub fn run(opts: &RndOpts, tw: &mut TraceWriter) {
                         }
                         // a refused configuration may differ in the packet size as well: nothing of it may stick
                         if opts.resize && env.rng.random_range(0..2) == 0 {
-                            c.max_packet_size = std::num::NonZeroUsize::new(pick(&mut env.rng, &[20usize, 48, 1400])).unwrap();
+                            c.max_packet_size = std::num::NonZeroUsize::new(pick(&mut env.rng, &[8usize, 20, 48, 1400])).unwrap();
                         }
                     }
                     5 => c.notify_down_members = !c.notify_down_members,
                     _ => {
                         if opts.resize {
-                            c.max_packet_size = std::num::NonZeroUsize::new(pick(&mut env.rng, &[20usize, 48, 1400])).unwrap();
+                            c.max_packet_size = std::num::NonZeroUsize::new(pick(&mut env.rng, &[8usize, 20, 48, 1400])).unwrap();
                         } else {
                             c.num_indirect_probes = std::num::NonZeroUsize::new(pick(&mut env.rng, &[1usize, 2, 3])).unwrap();
                         }
